@@ -68,6 +68,7 @@ fn dump() {
         may("p_more", a, p_more);
         show("z_more2", a, z_more2(a));
         show("z_more3", a, z_more3(a));
+        show("z_more4", a, z_more4(a));
         // functions with overflow-prone arithmetic only on small inputs
         if a.iter().all(|x| *x < 1000) {
             show("z_option", a, z_option(a));
